@@ -32,7 +32,7 @@ ANCHORS = [
     "stereomolgraph.graphs.scrg:StereoCondensedReactionGraph.relabel_atoms",
 ]
 REQUIRED_ANCHORS = ANCHORS
-REQUIRED = ["eq_observed", "with_changes", "with_placeholder", "with_unspecified", "empty_graph", "isolated_atoms", "harness_crosscheck", "disconnected", "large_graphs", "scale_cases", "high_coordination_cases"]
+REQUIRED = ["symmetry_checks", "eq_observed", "with_changes", "with_placeholder", "with_unspecified", "empty_graph", "isolated_atoms", "harness_crosscheck", "disconnected", "large_graphs", "scale_cases", "high_coordination_cases"]
 CASE_TIMEOUT = 1500
 VARIANTS = ("rebuild", "relabel_copy", "relabel_inplace", "rewrite", "all", "derived", "numpy_parity")
 
@@ -101,7 +101,7 @@ def _variant(pg, variant, brng, m):
     elif variant == "rewrite":
         g2 = build(pg, rng=brng, rewrite=True)
     elif variant == "numpy_parity":  # the same graph with its parities given as numpy integer scalars (what np.sign returns)
-        g2 = build(pg, rng=brng, idmap=m, numpy_parity=True)
+        g2 = build(pg, rng=brng, idmap=m, numpy_parity=True if brng.random() < 0.5 else "ids")
     elif variant == "derived":  # the same abstract graph reached through subgraph / compose / removals / copies / JSON ...
         via = VIAS[1 + brng.randrange(len(VIAS) - 1)]
         g2, _ = build_case(sem.pg_relabel(pg, m), brng.randrange(1 << 30), via=via)
@@ -112,6 +112,45 @@ def _variant(pg, variant, brng, m):
         brng.shuffle(tgt)
         g2 = g2.relabel_atoms({a: b + 5000 for a, b in zip(ids, tgt)}, copy=True)
     return g, g2
+
+
+def _symmetry_on_other_graphs(ctx, case, pg, g, cls, brng):
+    """'symmetric on all graphs': a == b and b == a agree for partners that are NOT renamings too - a slightly different
+    graph, the same skeleton without (or with other) reaction roles, and both seen through a base class (copy-
+    construction keeps bond attributes such as 'reaction' that the base class does not interpret)"""
+    from ..snapshot import classes
+
+    partners = []
+    r = gen.mutate(brng, pg)
+    if r:
+        partners.append(("mutated:" + r[0], r[1]))
+    if cls in ("CondensedReactionGraph", "StereoCondensedReactionGraph") and any("reaction" in v for v in pg["bonds"].values()):
+        plain = sem.pg_copy(pg)
+        for v in plain["bonds"].values():
+            v.pop("reaction", None)
+        plain["achange"], plain["bchange"] = {}, {}
+        partners.append(("roles-stripped", plain))
+    bases = {"MolGraph": [], "StereoMolGraph": ["MolGraph"], "CondensedReactionGraph": ["MolGraph"], "StereoCondensedReactionGraph": ["StereoMolGraph", "CondensedReactionGraph", "MolGraph"]}[cls]
+    for what, hp in partners:
+        try:
+            h = build(sem.pg_relabel(hp, gen.random_bijection(brng, hp)) if brng.random() < 0.5 else hp, rng=brng)
+        except Exception:  # noqa: BLE001
+            continue
+        pairs = [("same-class", g, h)]
+        if bases:
+            B = classes()[brng.choice(bases)]
+            pairs.append((f"as-{B.__name__}", B(g), B(h)))
+        for tag, x, y in pairs:
+            ctx.count("symmetry_checks")
+            try:
+                r1, r2 = (x == y), (y == x)
+            except Exception as e:  # noqa: BLE001
+                ctx.violate(f"C01/eq-raises:{type(e).__name__}/{cls}/symmetry/{tag}/{what.split(':')[0]}", f"== raised {e!r} ({tag}, partner {what})", case)
+                continue
+            if r1 is not r2:
+                ctx.violate(f"C01/eq-asymmetric/{cls}/{tag}/{what.split(':')[0]}", f"a == b is {r1} but b == a is {r2} ({tag}; partner: {what}; {len(pg['atoms'])} atoms)", case)
+            if r1 is not r2 or r1:
+                ctx.count("symmetry_checks_equal_or_asymmetric")
 
 
 def check_case(ctx, case):
@@ -158,6 +197,8 @@ def check_case(ctx, case):
         ctx.count("eq_observed")
         if r is not True:
             ctx.violate(f"C01/eq-miss/{cls}/{variant if name not in ('a==a', 'b==b') else 'reflexive'}/{fkey}", f"{name} returned {r!r} for a {variant} variant of a {cls} with {len(pg['atoms'])} atoms", case)
+    if "scale" not in case and "high_coordination" not in case and len(pg["atoms"]) <= 40 and brng.random() < 0.3:
+        _symmetry_on_other_graphs(ctx, case, pg, g, cls, brng)
     # harness guard: the variants really are the same graph (independent enumerator, 5 %)
     if brng.random() < 0.05 and len(pg["atoms"]) <= 12:
         try:
